@@ -161,6 +161,13 @@ def run_chunk(chunk):
             _do(res, [[['uh', 'states'], 0xCD000000 | (0xA5 << 16) | (v << 8) | 2]])
             _do(res, [[['uh', 'states'], (v << 24) | (v << 16) | 0x0103]])
     elif k == 'creator':
+        # PHYP component ids are two ASCII bytes: every pair over a byte alphabet (letters, digits, NUL, high bit)
+        grid = [0x00, 0x01, 0x20, 0x30, 0x31, 0x39, 0x41, 0x42, 0x4C, 0x5A, 0x61, 0x7A, 0x7E, 0x7F]
+        for hi in grid:
+            for lo in grid:
+                for cr in ('H', 'O'):
+                    _do(res, [[['creator'], cr], [['comp'], (hi << 8) | lo], [['uh', 'comp'], (lo << 8) | hi],
+                              [['sec', 0, 'comp'], (hi << 8) | lo], [['sec', 1, 'comp'], (lo << 8) | hi], [['sec', 2, 'comp'], (hi << 8) | lo]])
         for c in range(128):
             for comp in (0x4142, 0x0041, 0x4100, 0x3100):
                 _do(res, [[['creator'], chr(c)], [['comp'], comp], [['uh', 'comp'], comp ^ 0x0303]])
